@@ -191,7 +191,7 @@ def mt_hygiene(tier, seed, res):
         with os.fdopen(fd, "w") as f:
             f.write("\n".join(lines) + "\n")
         try:
-            a = subprocess.run([harness, path], stdout=subprocess.PIPE, stderr=subprocess.PIPE, text=True, timeout=30,
+            a = subprocess.run([harness, path], stdout=subprocess.PIPE, stderr=subprocess.PIPE, text=True, timeout=75,
                                env=dict(os.environ, ASAN_OPTIONS="detect_leaks=1:abort_on_error=0"))
             return job, a.stdout, a.stderr, a.returncode
         except subprocess.TimeoutExpired:
@@ -249,7 +249,7 @@ def run_mt(lines):
         f.write("\n".join(lines) + "\n")
     env = dict(os.environ, ASAN_OPTIONS="detect_leaks=1")
     try:
-        a = subprocess.run([os.path.join(common.BUILD, "mt_h"), path], stdout=subprocess.PIPE, stderr=subprocess.PIPE, text=True, timeout=60, env=env)
+        a = subprocess.run([os.path.join(common.BUILD, "mt_h"), path], stdout=subprocess.PIPE, stderr=subprocess.PIPE, text=True, timeout=75, env=env)
         return a.stdout, a.stderr, a.returncode
     except subprocess.TimeoutExpired:
         return "", "TIMEOUT", -9
